@@ -164,3 +164,43 @@ def test_thread_death_and_service_threads():
         assert names["svc"] == (False, None)
     sched.shutdown_pool()
     assert not leftover()
+
+
+def test_reading_queue_state_is_a_scheduling_point():
+    def prog(s):
+        q = sched.Queue()
+
+        def worker():
+            if q.empty():
+                q.put(1)
+
+        s.spawn("a", worker)
+        s.spawn("b", worker)
+        return q
+
+    assert {len(e.harness._items) for e in sched.Explorer(prog).dfs(0)} == {1}
+    assert {len(e.harness._items) for e in sched.Explorer(prog).dfs(1)} == {1, 2}
+    sched.shutdown_pool()
+    assert not leftover()
+
+
+def racy_increment(c):
+    tmp = c.x
+    tmp = tmp + 1
+    c.x = tmp
+
+
+def test_line_granular_points_find_an_unsynchronised_race():
+    def prog(s):
+        c = Counter()
+        s.spawn("a", lambda: racy_increment(c))
+        s.spawn("b", lambda: racy_increment(c))
+        return c
+
+    # without line points the increments are atomic for the scheduler
+    assert {e.harness.x for e in sched.Explorer(prog).dfs(2)} == {2}
+    ex = sched.Explorer(prog, trace_files=(os.path.abspath(__file__).replace(".pyc", ".py"),))
+    assert {e.harness.x for e in ex.dfs(0)} == {2}
+    assert {e.harness.x for e in ex.dfs(1)} == {1, 2}
+    sched.shutdown_pool()
+    assert not leftover()
